@@ -98,7 +98,10 @@ func nativeReplay(pkgRel string, vecDir string, tier int, workDir string, race b
 	if tier > 0 {
 		tn = "thorough"
 	}
-	cmd.Env = append(os.Environ(), "VF_REPLAY_DIR="+vecDir, "VF_TIER="+tn, "GOFLAGS=-mod=mod", "GOPROXY=off", "GOSUMDB=off", "GOTOOLCHAIN=local")
+	if race {
+		cmd.Env = append(cmd.Env, "VF_REPLAY_REPS=400")
+	}
+	cmd.Env = append(append(os.Environ(), cmd.Env...), "VF_REPLAY_DIR="+vecDir, "VF_TIER="+tn, "GOFLAGS=-mod=mod", "GOPROXY=off", "GOSUMDB=off", "GOTOOLCHAIN=local")
 	out, rerr := cmd.CombinedOutput()
 	res := map[string]*replayOutcome{}
 	var cur *replayOutcome
